@@ -146,6 +146,13 @@ def run(ctx):
         nr, nc = rng.randrange(1, 7), rng.randrange(1, 6)
         before = [[rng.randrange(12) for _ in range(nc)] for _ in range(nr)]
         arr = np.array(before)
+        lay = t % 5              # memory layout of the array handed over: C order, Fortran order, a transposed view, a strided view
+        if lay == 1:
+            arr = np.asfortranarray(arr)
+        elif lay == 2:
+            arr = np.array(before).T.copy().T
+        elif lay == 3:
+            big = np.zeros((2 * nr, 2 * nc), dtype=arr.dtype); big[::2, ::2] = arr; arr = big[::2, ::2]
         ax = rng.choice([0, 1])
         axarg = ax if rng.random() < 0.5 else (ax,)
         g = np.random.default_rng(rng.randrange(2 ** 32)) if t % 2 else np.random.RandomState(rng.randrange(2 ** 32))
@@ -165,6 +172,10 @@ def run(ctx):
         nd = 3 if (t % 4 and len(set(axes)) < 3) else 4      # at least one axis is left to shuffle along
         shape = tuple(rng.randrange(2, 4) for _ in range(nd))
         arr = np.arange(int(np.prod(shape))).reshape(shape) % rng.choice([5, 7, 1000])
+        if t % 3 == 1:
+            arr = np.asfortranarray(arr)
+        elif t % 3 == 2:
+            arr = arr.transpose(tuple(reversed(range(nd)))).copy().transpose(tuple(reversed(range(nd))))
         before_nd = arr.copy()
         g = np.random.default_rng(rng.randrange(2 ** 32)) if t % 2 else np.random.RandomState(rng.randrange(2 ** 32))
         cid += 1
